@@ -50,7 +50,12 @@ def specs():
     # line/arc curves: the stadiums have a half turn (two of their four roots), the Dee only exchange and time shift
     mx = st.builds(lambda c, t: {'kind': 'param', 'curve': c, 'ts': t, 'xs': None, 'period': 2},
                    st.sampled_from(['Stadium', 'Stadium1', 'Dee']), ts)
-    return st.one_of(sq, sq, ci, gr, mx)
+    # initial time grids with slabs of different length: a time shift then carries a box into a slab in which it has
+    # another time level (exchange and time shift only)
+    uneq = st.builds(lambda c, t: {'kind': 'param', 'curve': c, 'ts': t, 'xs': None, 'unequal_t': True},
+                     st.sampled_from(['UnitSquare', 'PiSquare', 'LShape', 'Circle']),
+                     st.sampled_from([[0.0, 1.0, 3.0, 5.0], [0.0, 0.5, 1.5, 2.5], [0.0, 2.0, 3.0, 5.0, 9.0]]))
+    return st.one_of(sq, sq, ci, gr, mx, uneq)
 
 
 def cases():
@@ -59,6 +64,8 @@ def cases():
         scs = [x for x in pairs.SPACE_CLASSES if not (x == 'touch_corner' and c == 'Circle')]
         syms = ['exchange', 'tshift'] + ([] if c in ('LShape', 'Dee') else
                                          ['rot'] if c.startswith('Stadium') else ['rot', 'reflect', 'rot'])
+        if spec.get('unequal_t'):
+            syms = ['tshift', 'tshift', 'exchange']
         return st.fixed_dictionaries({
             'fam': st.just('target'), 'spec': st.just(spec), 'sc': st.sampled_from(scs),
             'tc': st.sampled_from(['equal', 'touch_after', 'separated', 'overlap']),
@@ -77,6 +84,38 @@ def image(case, probe, A, B):
     L, T = probe.model.L, probe.model.T
     if sym == 'exchange':
         return (Box(A.t0, A.t1, B.x0, B.x1, A.lt, B.lx), Box(B.t0, B.t1, A.x0, A.x1, B.lt, A.lx))
+    if sym == 'tshift' and case['spec'].get('unequal_t'):
+        # slabs of different length: shift in real time and look the images up again
+        ts = probe.ts
+        (a0, a1), _ = probe.real_box(A)
+        (b0, b1), _ = probe.real_box(B)
+
+        def to_model(ta, tb):
+            for j in range(len(ts) - 1):
+                if ts[j] <= ta and tb <= ts[j + 1]:
+                    Lr = ts[j + 1] - ts[j]
+                    lvl = 0
+                    while lvl < 40 and (tb - ta) * (1 << lvl) < Lr:
+                        lvl += 1
+                    if (tb - ta) * (1 << lvl) != Lr:
+                        return None
+                    k = (ta - ts[j]) / (tb - ta)
+                    if k != int(k):
+                        return None
+                    step = ONE >> lvl
+                    return (j * ONE + int(k) * step, j * ONE + (int(k) + 1) * step, lvl)
+            return None
+        step = max(a1 - a0, b1 - b0)
+        shifts = [m * step for m in range(-12, 13) if m != 0] + [m * 0.5 for m in range(-12, 13) if m != 0]
+        cands = []
+        for sft in shifts:
+            ia, ib = to_model(a0 + sft, a1 + sft), to_model(b0 + sft, b1 + sft)
+            if ia is not None and ib is not None:
+                cands.append((ia, ib))
+        if not cands:
+            return None
+        ia, ib = cands[case['k'] % len(cands)]
+        return (Box(ia[0], ia[1], A.x0, A.x1, ia[2], A.lx), Box(ib[0], ib[1], B.x0, B.x1, ib[2], B.lx))
     if sym == 'tshift':
         unit = ONE >> case['shift_level']
         # the shift must be a multiple of both time lengths so that the images are dyadic boxes again
